@@ -71,6 +71,8 @@ type tr struct {
 	loopN    int
 	loopID   map[token.Pos]int // 3-clause / condition loops numbered in source order
 	defers   []string          // deferred effect calls as `let` lines, in source order
+	fnFall   string            // the term for falling off the end of the function
+	joinDepth int              // > 0 while translating the branches of a joined `if`
 	shadowErr string           // set by checkShadow: the definition is then emitted as a translate_error
 	retWrap  func(string) string // how a `return e` is rendered in the current context
 	funcRet  func(string) string // how a `return e` is rendered at function level
@@ -423,6 +425,14 @@ func terminates(stmts []ast.Stmt) bool {
 // stmts translates a statement list; `fall` is the Lean term for falling off the end.
 func (x *tr) stmts(list []ast.Stmt, fall string, ind string) string {
 	if len(list) == 0 {
+		if fall == x.fnFall && !x.inLoop && x.joinDepth == 0 && len(x.defers) > 0 {
+			// falling off the end of the function: the deferred effects run
+			pre := ""
+			for k := len(x.defers) - 1; k >= 0; k-- {
+				pre += x.defers[k] + "\n" + ind
+			}
+			return pre + fall
+		}
 		return fall
 	}
 	s, rest := list[0], list[1:]
@@ -597,8 +607,10 @@ func (x *tr) stmts(list []ast.Stmt, fall string, ind string) string {
 			vars := x.assigned(append(append([]ast.Stmt{}, v.Body.List...), els...))
 			tup := tuple(vars)
 			ind2 := ind + "  "
+			x.joinDepth++
 			thenT := x.stmts(v.Body.List, tup, ind2)
 			elseT := x.stmts(els, tup, ind2)
+			x.joinDepth--
 			return pre + "let " + tup + " := (if " + x.expr(v.Cond) + " then\n" + ind2 + thenT + "\n" + ind + "else\n" + ind2 + elseT + ")\n" + ind + next()
 		}
 		x.checkShadow(v.Body.List, rest)
@@ -779,7 +791,12 @@ func (x *tr) effectLet(c *ast.CallExpr) string {
 		tv, fn = fn[:i], fn[i+2:]
 	}
 	args := []string{tv}
-	if strings.HasSuffix(fn, "!") {
+	if strings.HasSuffix(fn, "!1") { // only the first argument of the Go call is passed on
+		fn = strings.TrimSuffix(fn, "!1")
+		if len(c.Args) > 0 {
+			args = append(args, x.expr(c.Args[0]))
+		}
+	} else if strings.HasSuffix(fn, "!") {
 		fn = strings.TrimSuffix(fn, "!")
 	} else {
 		for _, a := range c.Args {
@@ -1088,6 +1105,7 @@ func translate(t *target) (string, []string) {
 		}
 		return true
 	})
+	x.fnFall = fall
 	body := x.stmts(fbody.List, fall, "  ")
 	doc := t.Doc
 	if doc == "" {
